@@ -326,6 +326,14 @@ def fam_inject(rng, n, tag="inj"):
         lambda r: ("input", r.choice([1, 2, 3]), r.choice([0, 1, 3, 5]), r.randrange(0, 200), -1, r.choice(["80", "ffffffffffffffffffff01", "8180808004", "0401", "-", "fdff03", "%02x%02x" % (r.randrange(256), r.randrange(256))])),
         lambda r: ("input", 1, 2, -5, -1, "0401"),
         lambda r: ("input", r.choice([1, 5]), 2, r.choice([0, 0, 3, 50]), -1, "02040502030d"),   # well-formed payload, foreign magic
+        # malformed packets under the peer's OWN magic (magic 0 is substituted by the harness): wrong status
+        # count, negative start frame, garbage payload, frames of the wrong size, wrong-size frames at the end
+        # of the i32 frame range
+        lambda r: ("input", 0, r.choice([0, 1, 3, 7]), r.randrange(0, 300), -1, "02040502030d"),
+        lambda r: ("input", 0, 2, -r.randrange(1, 1 << 30), -1, "02040502030d"),
+        lambda r: ("input", 0, 2, r.randrange(0, 300), -1, r.choice(["80", "ffffffffffffffffffff01", "8180808004", "ff", "7f7f7f"])),
+        lambda r: ("input", 0, 2, r.randrange(0, 300), -1, r.choice(["020305080707070311", "020205040607"])),
+        lambda r: ("input", 0, 2, 2147483647, -1, "020305080707070311"),
         lambda r: ("input", 1, 2, r.randrange(0, 100), -1, "".join("%02x" % r.randrange(256) for _ in range(r.randrange(1, 9)))),
         lambda r: ("syncreply", r.choice([1, 2, 3]), r.randrange(1 << 30)),
         lambda r: ("keepalive", 1234),
